@@ -45,6 +45,11 @@ def opSpecNormalized : List String → String
   | [a] => withS a fun s => encB (NameSpec.normalized lowerCp s)
   | _ => "bad-op"
 
+def opSpecAll : List String → String
+  | [a] => withS a fun s =>
+      encS (NameSpec.fold lowerCp s) ++ " " ++ encB (NameSpec.validName s) ++ " " ++ encB (NameSpec.normalized lowerCp s)
+  | _ => "bad-op"
+
 /-! ### tags, filenames -/
 
 def encTag (t : Tag) : String := encS t.i ++ ":" ++ encS t.a ++ ":" ++ encS t.p
@@ -110,7 +115,7 @@ def opAssemble : List String → String
 
 def ops : List (String × (List String → String)) :=
   [ ("name.canon", opCanon), ("name.canonv", opCanonV), ("name.isnorm", opIsNorm), ("name.all", opAll),
-    ("s.name.fold", opSpecFold), ("s.name.valid", opSpecValid), ("s.name.normalized", opSpecNormalized),
+    ("s.name.fold", opSpecFold), ("s.name.valid", opSpecValid), ("s.name.normalized", opSpecNormalized), ("s.name.all", opSpecAll),
     ("tag.parse", opTagParse), ("tag.pair", opTagPair), ("whl.parse", opWheel), ("sdist.parse", opSdist),
     ("s.whl.assemble", opAssemble) ]
 
